@@ -729,7 +729,7 @@ pub fn c11_farms(c: &FuCtx, rec: &mut Rec) {
             if funds_ok && !ok {
                 let live_after: usize = c.pre.farms.iter().filter(|f| f.lp_denom == lpd[*lp] && !farm_expired_by_statement(f, c.pre.now, cfg.farm_expiration_time)).count();
                 let id_clash = matches!(c.op, FuOp::CreateFarm { id: Some(i), .. } if c.pre.farm(&format!("m-{i}")).is_some());
-                let epochs_ok = start.map_or(true, |s| s > c.pre.cur && s <= c.pre.cur + cfg.max_farm_epoch_buffer as u64) && end.map_or(true, |e| e > start.unwrap_or(c.pre.cur + 1));
+                let epochs_ok = start.map_or(cfg.max_farm_epoch_buffer >= 1, |s| s > c.pre.cur && s <= c.pre.cur + cfg.max_farm_epoch_buffer as u64) && end.map_or(true, |e| e > start.unwrap_or(c.pre.cur + 1));
                 if live_after < cfg.max_concurrent_farms as usize && !id_clash && epochs_ok && reward.1 >= 1000 {
                     rec.viol_kf("C11_valid_creation_refused", format!("fee={fee} reward_denom_is_fee_denom={} funds_coins={}", fee.denom == rden, funds.len()), format!("fee {fee}, reward {} {rden}, funds {:?} refused: {}", reward.1, funds, c.out.err_text()));
                 }
@@ -890,7 +890,7 @@ pub fn jobs_c06(tier: Tier) -> Vec<Job> {
     vec![explore_job(r, tier.pick(3, 4), Caps::default()), explore_job(core, tier.pick(5, 7), Caps::default()), explore_job(many, tier.pick(2, 4), Caps::default())]
 }
 pub fn jobs_c07(tier: Tier) -> Vec<Job> {
-    let r = FuChecker::new("c07-fu-reward", vec!["F1", "F2", "F3", "F7", "F9", "F11", "F14", "F16", "F17", "F18"], FAlpha::Reward, vec![c07_share, fu_defaults]);
+    let r = FuChecker::new("c07-fu-reward", vec!["F1", "F2", "F3", "F7", "F9", "F11", "F14", "F16", "F17", "F18", "F20"], FAlpha::Reward, vec![c07_share, fu_defaults]);
     let mut d = FuChecker::new("c07-fu-diamond", vec!["F2", "F3", "F13"], FAlpha::RewardCore, vec![c07_share]);
     d.state_oracles = vec![c07_diamond];
     let mut many = FuChecker::new("c07-fu-manyfarms", vec!["F6"], FAlpha::RewardCore, vec![c07_share, c06_rewards]);
